@@ -99,6 +99,69 @@ def test_numpy_facts():
     assert c17._result_tag('f', 'c') is None and c17._result_tag('f', 'i') == 'result=nonfloat'
 
 
+def test_special_fills():
+    # mixed special values: every ordered pair of distinct leaf positions, literal contents
+    f = c17.fill('float64', (2, 3), 'mx:z:pinf:0:3')
+    assert f.tolist() == [[0.0, -2.0, 3.0], [np.inf, -0.25, 4.0]]
+    f = c17.fill('float64', (2, 3), 'mx:z:pinf:3:0')
+    assert f.tolist() == [[np.inf, -2.0, 3.0], [0.0, -0.25, 4.0]]
+    f = c17.fill('float64', (2, 3), 'mx:ninf:nan:5:0')
+    assert np.isnan(f[0, 0]) and f[1, 2] == -np.inf and np.isfinite(f).sum() == 4
+    f = c17.fill('float64', (3,), 'mx:nz:pinf:0:2')
+    assert f.tolist() == [0.0, -2.0, np.inf] and np.signbit(f[0])
+    c = c17.fill('complex128', (2, 3), 'mx:z:pinf:0:3')
+    assert c[0, 0] == 0 and c[1, 0] == complex(np.inf, 0) and c[0, 1] == -2.0 + 2j
+    names = c17.special_fills('float64', (2, 3))
+    assert c17._special_positions((2, 3)) == [0, 3, 5]
+    assert c17._special_positions((2, 2, 3)) == [0, 3, 6, 9, 11]
+    assert c17._special_positions((3,)) == [0, 1, 2]
+    for v, w in c17.MIXED_SPECIALS:
+        for i, j in ((0, 3), (3, 0), (0, 5), (5, 0), (3, 5), (5, 3)):
+            assert 'mx:%s:%s:%d:%d' % (v, w, i, j) in names
+    assert len(names) == len(set(names)) == 3 + 5 + 6 * len(c17.MIXED_SPECIALS)
+    assert c17.special_fills('int64', (2, 3)) == [] and c17.special_fills('bool', (3,)) == []
+    # the NumPy facts these fills are about
+    with np.errstate(all='ignore'):
+        assert np.isnan(np.prod(c17.fill('float64', (2, 3), 'mx:z:pinf:0:3')))
+        assert np.isnan(np.prod(c17.fill('float64', (2, 3), 'mx:z:nan:3:0')))
+        assert np.isnan(np.sum(c17.fill('float64', (2, 3), 'mx:pinf:ninf:0:5')))
+        assert np.isnan(np.min(c17.fill('float64', (2, 3), 'mx:ninf:nan:0:3')))
+        assert np.isnan(np.max(c17.fill('float64', (2, 3), 'mx:pinf:nan:0:3')))
+
+
+def test_other_dtype_operands():
+    for dt in c17.DTYPES:
+        ops = c17.other_dtype_operands(dt)
+        arr_dts = sorted(o[2] for o in ops if o[0] == 'AD')
+        assert arr_dts == sorted(d for d in c17.DTYPES if d != dt)      # every other dtype
+        assert sorted(o[2] for o in ops if o[0] == 'LD') == arr_dts
+        assert sorted(o[2] for o in ops if o[0] == 'S0') == sorted(c17.DTYPES)
+        assert sorted(np.dtype(type(o[1])).name for o in ops if o[0] == 'SN') == \
+            sorted(c17.DTYPES)
+        py = [o[1] for o in ops if o[0] == 'SD']
+        assert all(type(v) in (bool, int, float, complex) for v in py)
+        assert type(c17.OTHER_SCALAR[dt]) not in [type(v) for v in py if v != 1e300]
+        leaf = c17.other_dtype_operands(dt, leaf=True)
+        assert not [o for o in leaf if o[0] in ('AD', 'LD')]
+        assert sorted(o[2] for o in leaf if o[0] == 'CD') == arr_dts
+    # int element: the float operands carry fractions (a conversion to int would show)
+    ops = c17.other_dtype_operands('int64')
+    assert 2.5 in [o[1] for o in ops if o[0] == 'SD'] and (0.5 + 2j) in [o[1] for o in ops]
+    ctx = c17.Ctx('t3', 'int64')
+    o, r, a = c17.mk_operand(ctx, ('AD', 'b1', 'float64'))
+    assert o.dtype == np.float64 and o.tolist() == [2.0, 0.5, 1.0] and o is not r
+    o, r, a = c17.mk_operand(ctx, ('LD', 'b1', 'float64'))
+    assert o == [2.0, 0.5, 1.0] and type(o[1]) is float
+    o, r, a = c17.mk_operand(ctx, ('S0', 2.5, 'float32'))
+    assert o.shape == () and o.dtype == np.float32 and o == 2.5
+    # the NumPy facts (1.x promotion) the legacy-interface clause is compared against
+    assert np.add(np.array([1, 4, 9]), 0.5).dtype == np.float64
+    assert np.less(np.array([1, 4, 9]), 4.5).tolist() == [True, True, False]
+    assert np.add(np.ones(3, 'float32'), np.array([0.1, 0.2, 0.3])).dtype == np.float64
+    assert np.multiply(np.ones(3), 1j).dtype == np.complex128
+    assert 1e300 in [o[1] for o in c17.other_dtype_operands('float32')]
+
+
 def test_minimal_reporting():
     ctx = c17.Ctx('t3', 'float64')
     ctx.fail('reduce', ['axis<0'], 'raises:ValueError', 'a')
